@@ -1050,7 +1050,8 @@ class StructOf(DataType):
         superfluous = set(value) - set(self.members)
         if superfluous - set(self.optional):
             raise WrongTypeError(f"struct contains superfluous members: {', '.join(superfluous)}")
-        missing = set(self.members) - set(value)
+        # None stands for a missing key (see __call__ and validate)
+        missing = set(self.members) - set(k for k, v in value.items() if v is not None)
         if self.client or allow_optional:  # on the client side, allow optional elements always
             missing -= set(self.optional)
         if missing:
